@@ -1031,6 +1031,7 @@ func (e *Engine) filterFileToBackup(r *TSMReader, fi os.FileInfo, shardRelativeP
 
 	// implicit else: here we iterate over the blocks and only keep the ones we really want.
 	bi := r.BlockIterator()
+	wrote := false
 
 	for bi.Next() {
 		// not concerned with typ or checksum since we are just blindly writing back, with no decoding
@@ -1045,11 +1046,18 @@ func (e *Engine) filterFileToBackup(r *TSMReader, fi os.FileInfo, shardRelativeP
 			if err != nil {
 				return err
 			}
+			wrote = true
 		}
 	}
 
 	if err := bi.Err(); err != nil {
 		return err
+	}
+
+	// No block of this file lies in the range: there is nothing to back up
+	// from it (an empty TSM file cannot be written).
+	if !wrote {
+		return nil
 	}
 
 	err = w.WriteIndex()
